@@ -155,17 +155,50 @@ fn gen_reply(rng: &mut Rng, rs: usize) -> (String, Vec<u8>) {
     (tag, mbx(len, ty, counter, &payload))
 }
 
+/// Directed family: a *valid* initiate response of a segmented upload (so that the segment loop is
+/// really entered) followed by upload-segment responses whose mailbox length, "unused bytes" field,
+/// toggle and last-segment flag take every kind of value, also contradictory ones.
+fn gen_segment_session(rng: &mut Rng, rs: usize) -> Vec<(String, Vec<u8>)> {
+    let idx = 0x2000u16.to_le_bytes();
+    let complete = 8 + rng.usize_below(57); // fits the [u8; 64] destination
+    let first = rng.usize_below((rs.saturating_sub(16)).min(complete.saturating_sub(1)) + 1);
+    let mut b = vec![0x00, 0x30, 0x41, idx[0], idx[1], 1];
+    b.extend_from_slice(&(complete as u32).to_le_bytes());
+    b.extend(rng.bytes(first));
+    let mut out = vec![("segmented-initiate-valid".to_string(), mbx(b.len() as u16, 3, 1 + rng.below(7) as u8, &b))];
+    let mut toggle = 0u8;
+    for _ in 0..1 + rng.usize_below(3) {
+        let data = rng.usize_below(12);
+        let unused = rng.below(8) as u8;
+        let last = rng.chance(1, 3) as u8;
+        let t = if rng.chance(1, 6) { toggle ^ 1 } else { toggle };
+        let mut p = vec![0x00, 0x30, (t << 4) | (unused << 1) | last];
+        p.extend(rng.bytes(data));
+        // the length field: what is there, the 10 byte minimum form, or any small / contradictory value
+        let len = match rng.below(4) {
+            0 => p.len() as u16,
+            1 => 10,
+            2 => rng.below(14) as u16,
+            _ => *rng.pick(&[0u16, 1, 2, 3, 4, 9, 11, rs as u16, rs as u16 + 1, 0xffff]),
+        };
+        out.push((format!("segment-in-session+len{len}+unused{unused}"), mbx(len, 3, 1 + rng.below(7) as u8, &p)));
+        toggle ^= 1;
+    }
+    out
+}
+
 fn run_case(sh: &mut Shard, case: u64, rng: &mut Rng) {
-    let rs = *rng.pick(&[6u16, 8, 10, 12, 15, 16, 17, 24, 32, 64, 128, 256, 1024]);
+    let session = rng.chance(1, 4);
+    let rs = if session { *rng.pick(&[16u16, 17, 24, 32, 64, 128]) } else { *rng.pick(&[6u16, 8, 10, 12, 13, 14, 15, 16, 17, 24, 32, 64, 128, 256, 1024]) };
     let ws = *rng.pick(&[16u16, 24, 64, 256]);
     let mut d = DeviceDesc::simple("MBX");
     d.mailbox = Some((0x1000, ws, 0x1400, rs));
     d.mailbox_protocols = MBX_COE;
     d.sms = vec![SmDesc { start: 0x1000, len: ws, control: 0x26, enable: 1, usage: 1 }, SmDesc { start: 0x1400, len: rs, control: 0x22, enable: 1, usage: 2 }];
     let nreplies = 1 + rng.usize_below(3);
-    let replies: Vec<(String, Vec<u8>)> = (0..nreplies).map(|_| gen_reply(rng, rs as usize)).collect();
+    let replies: Vec<(String, Vec<u8>)> = if session { gen_segment_session(rng, rs as usize) } else { (0..nreplies).map(|_| gen_reply(rng, rs as usize)).collect() };
     let refill = rng.chance(1, 4);
-    let entry = rng.below(5);
+    let entry = if session { 1 } else { rng.below(5) };
     let entry_name = ["sdo_read_u32", "sdo_read_64", "sdo_write", "sdo_info_list", "sdo_info_quantities"][entry as usize];
     let seed = rng.u64();
     let tags: Vec<String> = replies.iter().map(|r| r.0.clone()).collect();
